@@ -21,7 +21,7 @@ func specs() map[string]*propSpec {
 	m["C09"] = &propSpec{id: "C09", engine: "E1-lru-simulator", level: "exploration",
 		rule:     "systematic corpus (every run): every operation sequence of length 1..5 over {Store,Load,Delete} x 2 keys + Len + Dump on capacities 0..2 (thorough: length <= 6, and length <= 5 over 3 keys on capacities 0..3), with the removal callback registered; plus seeded single-client histories of Store/Load/Delete/Len/Dump (1..2000 ops, 2..5 keys or 4c+8 keys, capacities 0..4, 5, 8, 16, swarm operation mixes) refined step by step against a reference LRU; a run is non-trivial when it had >=1 eviction and >=1 (re-store of a live key or load hit); distinct = distinct hash of (capacity, operation list, event log)",
 		assume:   []string{"sampling, not enumeration: a clean batch is evidence, not proof", "the reference model (e1/model.go) is the specification of an LRU as stated in C09", "Dump text is not judged under C09"},
-		quick:    budget{race: false, runs: 320000, maxWall: 60 * time.Second},
+		quick:    budget{race: false, runs: 240000, maxWall: 40 * time.Second},
 		thorough: budget{race: false, runs: 60000000, maxWall: 8 * time.Minute}}
 	m["C10"] = &propSpec{id: "C10", engine: "E1-lru-simulator", level: "exploration",
 		rule:     "seeded schedules of 2..4 clients x 2..6 ops (small: linearizability of the recorded history against the reference LRU, lock-grant order as witness, porcupine otherwise) and 4..16 clients x 50..500 ops (large: invariants), all under the race detector with the simulator's hand-offs hidden and the application's own lock/pool edges declared; a run is non-trivial when >=2 operations of different clients overlapped and >=1 entry was removed; distinct = distinct hash of (plan, event log)",
@@ -178,7 +178,7 @@ func runCheck(prop, tier string, seed uint64) int {
 		"scheduler_steps_total":              m.steps,
 		"simulated_time_note":                "the code under test has no clock; simulated time is reported as scheduler steps",
 		"runs_per_hour":                      int64(float64(m.runs) / wall * 3600),
-		"run_index_range":                    fmt.Sprintf("batch seed %d, run indices 0..%d split over %d worker processes (a worker stops early at its wall budget; 'evaluations' is what actually ran)", seed, b.runs, 16),
+		"run_index_range":                    fmt.Sprintf("batch seed %d, seeded run indices 0..%d split over %d worker processes (a worker stops drawing seeded runs at its wall budget; the systematic corpus, if any, is split evenly among the workers and always runs completely; 'evaluations' is what actually ran)", seed, b.runs, 16),
 		"distinct_interleavings":             len(m.inter),
 		"distinct_interleavings_measure":     "distinct hashes of the sequence of (task, operation kind) at context switches",
 		"distinct_interleavings_lower_bound": m.interOv > 0,
